@@ -2,6 +2,14 @@
 """Rebuilds the seeded-changes table of DESIGN.md (between the SEEDED-TABLE markers) from
 /verif/seeded/*/meta.json and /verif/selfmut/results.json."""
 import json, glob, os, re
+NOTES = {
+ 'C13-m1': 'not reachable through the component: fetch, removal and block notification all run on the single mempool actor goroutine, puts take the list lock; only direct calls of unexported methods from several goroutines (the demo) expose it',
+ 'C02-m1': 'quick misses: needs a DAO tally with two tied candidates, which the quick mix produces too rarely',
+ 'C03-no-rollback-on-rejected-tx': 'no observable difference found: state is staged into the block state only on success, and run-time failures are rolled back inside executeTx (fix 6)',
+ 'C05-abandoned-tx-index-kept': 'outside the statement: C05 requires main-chain transactions to resolve, it does not forbid stale index entries of abandoned blocks (they resolve to a stored block)',
+ 'C20-nestedview-not-counted': 'masked: the executor increments the same counter when it enters a view function, so the callback-side increment is redundant for every entry point the check can reach',
+ 'C20-guard-recoverypoint': 'no state effect: a recovery point set in a read-only context is discarded with the context',
+}
 rows = []
 for d in sorted(glob.glob('/verif/seeded/*/')):
     try:
@@ -19,7 +27,10 @@ for d in sorted(glob.glob('/verif/seeded/*/')):
     what = (m.get('breaks') or m.get('summary') or '')
     what = re.sub(r'\s+', ' ', what)[:150]
     needs = re.sub(r'\s+', ' ', m.get('needs_to_manifest') or '')[:110]
-    rows.append('| %s | %s | %s | %s | %s |' % (os.path.basename(d.rstrip('/')), what, needs, det, '; '.join(k[:60] for k in keys[:2])))
+    name = os.path.basename(d.rstrip('/'))
+    if name in NOTES:
+        det += ' (' + NOTES[name] + ')'
+    rows.append('| %s | %s | %s | %s | %s |' % (name, what, needs, det, '; '.join(k[:60] for k in keys[:2])))
 out = ['| seeded change | what it breaks | needs | detected by | violation keys |', '|---|---|---|---|---|'] + rows
 sm = '/verif/selfmut/results.json'
 if os.path.exists(sm):
@@ -28,7 +39,10 @@ if os.path.exists(sm):
             '| break | check | result | violation keys |', '|---|---|---|---|']
     for k in sorted(r):
         v = r[k]
-        out.append('| %s | %s | %s | %s |' % (k, v.get('check'), v.get('result'), '; '.join(x[:70] for x in (v.get('keys') or [])[:2])))
+        res = v.get('result')
+        if k in NOTES:
+            res += ' (' + NOTES[k] + ')'
+        out.append('| %s | %s | %s | %s |' % (k, v.get('check'), res, '; '.join(x[:70] for x in (v.get('keys') or [])[:2])))
 txt = '\n'.join(out)
 p = '/verif/DESIGN.md'
 s = open(p).read()
